@@ -230,13 +230,24 @@ def _spacing(ctx, co):
     line_attr = "_subproc_line"
     if not any(reads(f, line_attr) for f in meths.values()):
         raise AnchorMissing(f"{CO}:_Formatter: the subprocess-line flag")
-    preds = {name for name, f in meths.items() if name not in ("_space_between", "__init__", "run") and any(isinstance(r, ast.Return) and r.value is not None for r in walk_local(f)) and reads(f, line_attr) and reads(f, "_brackets") and all(isinstance(r.value, ast.Constant) or (isinstance(r.value, ast.Attribute)) for r in walk_local(f) if isinstance(r, ast.Return) and r.value is not None)}
+    preds = {name for name, f in meths.items() if name not in ("_space_between", "__init__", "run") and not f.args.args[1:] and any(isinstance(r, ast.Return) and r.value is not None for r in walk_local(f)) and reads(f, line_attr) and reads(f, "_brackets")}
     for name in sorted(preds):
         f = meths[name]
         tabs = [table(c.comparators[0]) for c in ast.walk(f) if isinstance(c, ast.Compare) and len(c.ops) == 1 and isinstance(c.ops[0], ast.In)]
         tabs = [t for t in tabs if t is not None]
-        rets_true = [r for r in walk_local(f) if isinstance(r, ast.Return) and const_value(r.value, None) is True]
-        ok = bool(rets_true) and any(t >= CAPTURE_OPENERS and not (t & PYTHON_OPENERS) for t in tabs) and any(isinstance(r, ast.Return) and isinstance(r.value, ast.Attribute) and r.value.attr == line_attr for r in walk_local(f))
+        # 'subprocess' is said through a table that holds every capture opener and no Python-mode opener: `return True`
+        # under `x in T`, or `return x in T` itself
+        def capture_test(e):
+            t_ = table(e.comparators[0]) if isinstance(e, ast.Compare) and len(e.ops) == 1 and isinstance(e.ops[0], ast.In) else None
+            return t_ is not None and t_ >= CAPTURE_OPENERS and not (t_ & PYTHON_OPENERS)
+
+        says_subproc = False
+        for r in [r for r in walk_local(f) if isinstance(r, ast.Return) and r.value is not None]:
+            if capture_test(r.value):
+                says_subproc = True
+            elif const_value(r.value, None) is True and any(isinstance(a_, ast.If) and capture_test(a_.test) and any(lexically_inside(r, b_) or r is b_ for b_ in a_.body) for a_ in ancestors(r)):
+                says_subproc = True
+        ok = says_subproc and any(isinstance(r, ast.Return) and isinstance(r.value, ast.Attribute) and r.value.attr == line_attr for r in walk_local(f))
         ctx.ob("R4", f"{CO}:_Formatter.{name}", "the context test says 'subprocess' for every capture opener ($( $[ !( ![ @$( ), 'Python' inside @( and ${, and falls back to the line's classification", ok, key=f"{name}|context-predicate-shape", where=loc(f))
 
     def is_pos(e, who, what):
